@@ -66,6 +66,9 @@ func c14symbols(t *testing.T) (syms []c14sym, textLo, textHi uintptr) {
 
 func c14repl(a, b int) int { return a - b }
 
+// keep the assembly functions linked
+var c14keep = []func(){zzC14AsmShort, zzC14AsmShort5, zzC14AsmLong13, zzC14AsmLong14}
+
 const c14pkg = "github.com/tencent/goom/internal/patch."
 
 func c14errClass(err error) string {
@@ -99,6 +102,11 @@ func TestVerifC14Text(t *testing.T) {
 	runtime.LockOSThread()
 	out := vh.OpenOut()
 	defer out.Close()
+	for _, f := range c14keep { // reference the assembly functions so the linker keeps them
+		if reflect.ValueOf(f).Pointer() == 0 {
+			t.Fatal("nil function")
+		}
+	}
 	syms, textLo, textHi := c14symbols(t)
 	byName := map[string]c14sym{}
 	for _, s := range syms {
@@ -205,12 +213,22 @@ func TestVerifC14Text(t *testing.T) {
 			}
 		case "c14.install", "c14.tramp":
 			// c14.install <entryOff> <funcSize> <orig13> name=<sym> [inject=1] [tramp=<sym>]
+			// ptr=1: any function symbol of the binary, patched by address with patch.Ptr
 			fn, ok := zzC14Funcs[strings.TrimPrefix(kv["name"], c14pkg)]
-			if !ok {
+			var entry uintptr
+			if kv["ptr"] == "1" {
+				sy, ok2 := byName[kv["name"]]
+				if !ok2 {
+					out.Put(op.Idx, "no-such-symbol")
+					continue
+				}
+				entry = sy.addr
+			} else if !ok {
 				out.Put(op.Idx, "no-such-target")
 				continue
+			} else {
+				entry = reflect.ValueOf(fn).Pointer()
 			}
-			entry := reflect.ValueOf(fn).Pointer()
 			pbase := entry&^4095 - 4096
 			if kv["inject"] == "1" {
 				bytecode.ZZVerifC14SetFuncSize(entry, int(vh.U64(op.Toks[2])))
@@ -233,7 +251,9 @@ func TestVerifC14Text(t *testing.T) {
 						pc = c14u.PanicClass(r)
 					}
 				}()
-				if tramp != nil {
+				if kv["ptr"] == "1" {
+					g, err = Ptr(entry, c14repl)
+				} else if tramp != nil {
 					g, err = Trampoline(fn, c14repl, tramp)
 				} else {
 					g, err = Patch(fn, c14repl)
